@@ -297,15 +297,27 @@ class C13(object):
             import io, contextlib
             rr = random.Random(len(frames) * 7919 + sum(len(f["val"]) for f in frames))
             objs = []
+            changed = {}
             order = [k for k, f in enumerate(frames) if len(f["val"])]
             if rr.random() < 0.5:
                 order.sort(key=lambda k: -len(frames[k]["val"]))
             with contextlib.redirect_stdout(io.StringIO()):
                 for k in order:
                     f = frames[k]
+                    idt = rr.choice([np.float32, np.float32, np.float64])
                     fr = self.sf.sparse_frame(np.array(f["row"], np.uint16), np.array(f["col"], np.uint16), (desc["ns"], desc["nf"]),
-                                              pixels={"intensity": np.array(f["val"], np.float32)})
+                                              pixels={"intensity": np.array(f["val"], idt)})
                     nl = self.sf.sparse_localmax(fr)
+                    if rr.random() < 0.4 and fr.nnz > 2:
+                        # the frame's intensities change (corrected in place, or replaced through set_pixels) and it is
+                        # labelled again under the same name: labels and advertised count follow the values it holds now
+                        newv = np.array(f["val"], idt)[rr.sample(range(fr.nnz), fr.nnz)]
+                        if rr.random() < 0.5:
+                            fr.pixels["intensity"][:] = newv
+                        else:
+                            fr.set_pixels("intensity", newv)
+                        nl = self.sf.sparse_localmax(fr)
+                        changed[id(fr)] = np.array(newv, np.float32)
                     objs.append((k, fr, "localmax", nl))
                     if rr.random() < 0.3:
                         nl2 = self.sf.sparse_localmax(fr, label_name="again")
@@ -319,7 +331,7 @@ class C13(object):
             nobj = len(objs)
             for k, fr, lname, nl in objs:
                 f = frames[k]
-                ref, nmax = ref_sparse(np.array(f["row"]), np.array(f["col"]), np.array(f["val"], np.float32))
+                ref, nmax = ref_sparse(np.array(f["row"]), np.array(f["col"]), changed.get(id(fr), np.array(f["val"], np.float32)))
                 if nl != nmax or not np.array_equal(np.asarray(fr.pixels[lname]), ref) or fr.meta.get(lname, {}).get("nlabel") != nmax:
                     viol = {"class": "labels-differ", "key": "sparse_localmax:labels-differ",
                             "detail": "sparse_localmax on %d frame objects one after the other: the labels '%s' of frame %d, read after the "
